@@ -62,12 +62,13 @@ def chk_terminals(
     after trimming actions during optimization.
 
     """
-    new_out_ports = frozenset(_port_defs.get_out_ports(processor)).difference(
-        orig_port_info.out_ports
-    )
-
-    for out_port in new_out_ports:
-        _rm_dead_end(processor, out_port, orig_port_info.in_ports)
+    # Removing a dead end may turn its predecessors into dead ends as
+    # well, so keep trimming until no new terminals show up.
+    while new_out_ports := frozenset(
+        _port_defs.get_out_ports(processor)
+    ).difference(orig_port_info.out_ports):
+        for out_port in new_out_ports:
+            _rm_dead_end(processor, out_port, orig_port_info.in_ports)
 
 
 def clean_struct(processor: DiGraph) -> None:
